@@ -109,6 +109,7 @@ pub fn check_case(c: &Case) -> Verdict {
         v.class_if(same_path_earlier, "input-path-used-before");
         v.class_if(n >= 3 && c.steps[0].slot == last.slot && c.steps[0].recs == last.recs && c.steps[1].slot != last.slot, "sandwich-same-file-untouched");
         v.class_if(c.steps[n - 2].slot == last.slot && c.steps[n - 2].recs != last.recs && io::serialise(&c.steps[n - 2].recs, &Container::plain_fasta()).len() == io::serialise(&last.recs, &Container::plain_fasta()).len(), "input-rewritten-in-place-same-size");
+        v.class_if(c.steps[n - 2].slot == last.slot && c.steps[n - 2].recs.len() != last.recs.len() && io::serialise(&c.steps[n - 2].recs, &Container::plain_fasta()).len() == io::serialise(&last.recs, &Container::plain_fasta()).len(), "input-rewritten-same-size-other-record-count");
     }
     let mut before = (0u64, false);
     for (i, s) in c.steps.iter().enumerate() {
@@ -222,6 +223,20 @@ impl Leg for Histories {
                             let mut l = if shape % 2 == 0 { prev.clone() } else { steps[n - 1].clone() };
                             l.slot = prev.slot;
                             l.recs = prev.recs.iter().map(|r| Rec { id: r.id.clone(), desc: r.desc.clone(), seq: crate::util::Bytes(r.seq.0.iter().rev().copied().collect()) }).collect();
+                            if shape >= 9 && l.recs.len() >= 2 {
+                                // same byte size, one record fewer: two neighbours merged, the second header line paid for in bases
+                                let size = |r: &Rec| 1 + io::header_line(r).len() + 1 + if r.seq.0.is_empty() { 0 } else { r.seq.0.len() + 1 };
+                                let i = (l.recs.len() - 1) / 2;
+                                let total = size(&l.recs[i]) + size(&l.recs[i + 1]);
+                                let len = total - (io::header_line(&l.recs[i]).len() + 3);
+                                let mut seq = l.recs[i].seq.0.clone();
+                                seq.extend_from_slice(&l.recs[i + 1].seq.0);
+                                while seq.len() < len {
+                                    seq.push(b"ACGT"[seq.len() % 4]);
+                                }
+                                l.recs[i].seq = crate::util::Bytes(seq);
+                                l.recs.remove(i + 1);
+                            }
                             l.alt = prev.alt.iter().map(|r| Rec { id: r.id.clone(), desc: r.desc.clone(), seq: crate::util::Bytes(r.seq.0.iter().rev().copied().collect()) }).collect();
                             steps[n - 1] = l;
                         }
